@@ -186,20 +186,34 @@ func (fs *fileSet) meta(env *env) (*buildRuleMeta, error) {
 
 // fileNodes tells, for every listed file that is not a plain source file,
 // what kind of node bears its name (a rule or output named like a source
-// file takes its place). It is part of the action digest, so that a file
-// entering or leaving the set under such a name is not mistaken for no
-// change.
-func (fs *fileSet) fileNodes(env *env) map[string]string {
+// file takes its place) and, for an output file, its current stat, which is
+// what build writes into the list. It is part of the action digest, so that
+// a file entering or leaving the set under such a name, or a listed output
+// that was rewritten, is not mistaken for no change.
+func (fs *fileSet) fileNodes(env *env) (map[string]string, error) {
 	var m map[string]string
 	for _, f := range fs.files {
-		if t := env.nodeType(f); t != nodeSrc {
-			if m == nil {
-				m = make(map[string]string)
+		t := env.nodeType(f)
+		if t == nodeSrc {
+			continue
+		}
+		if m == nil {
+			m = make(map[string]string)
+		}
+		m[f] = t
+		if t == nodeOut {
+			stat, err := newOutFileStat(env, f)
+			if err != nil {
+				return nil, errcode.Annotatef(err, "out file stat %q", f)
 			}
-			m[f] = t
+			d, err := makeDigest(nodeOut, f, stat)
+			if err != nil {
+				return nil, errcode.Annotate(err, "digest out file stat")
+			}
+			m[f] = d
 		}
 	}
-	return m
+	return m, nil
 }
 
 func referenceFileSetOut(env *env, name string) (string, error) {
